@@ -185,16 +185,35 @@ def make_req(avoid_blockram):
         c.require("setup_fields_change_only_with_received", z3.Implies(z3.Not(received), fields == prev),
                   why="USBSetupDecoder registers all SETUP fields in the same clock edge that raises `received` (request.py READ_DATA)")
 
+        c.require("ack_and_setup_received_exclusive", z3.Not(z3.And(ack, received)),
+                  why="an ACK strobe follows a handshake packet, `received` follows the 8-byte DATA0 packet of a SETUP transaction (C04, USBSetupDecoder)")
+
+        # the request fields as they were in the previous cycle (= the fields of the open request, by the stability assumption)
+        def prev_field(name):
+            lo = 0
+            for nm in reversed(("s_recipient", "s_type", "s_request", "s_value", "s_index")):
+                w = I[nm].size()
+                if nm == name:
+                    return bits(prev, lo + w - 1, lo)
+                lo += w
+        p_is_cf = z3.And(prev_field("s_type") == int(USBRequestType.STANDARD), prev_field("s_request") == int(USBStandardRequests.CLEAR_FEATURE))
+        p_names_halt = z3.And(prev_field("s_recipient") == int(USBRequestRecipient.ENDPOINT),
+                              prev_field("s_value") == int(USBStandardFeatures.ENDPOINT_HALT))
+
         # ---- abstraction
         c.inv("fsm_legal", fsm.legal())
-        c.inv("clear_feature_state_iff_request_open", fsm.is_("CLEAR_FEATURE") == (cf == 1))
-        c.inv("open_request_is_clear_feature", z3.Implies(cf == 1, is_cf))
-        c.inv("zlp_only_for_open_halt_request", z3.Implies(zs == 1, z3.And(cf == 1, names_halt)))
+        p_std = prev_field("s_type") == int(USBRequestType.STANDARD)
+        c.inv("open_request_is_in_clear_feature_state", z3.Implies(cf == 1, fsm.is_("CLEAR_FEATURE")))
+        # (a non-standard request freezes the handler's FSM in whatever state it was: everything is gated by setup.type)
+        c.inv("clear_feature_state_means_request_open", z3.Implies(z3.And(fsm.is_("CLEAR_FEATURE"), p_std), cf == 1))
+        c.inv("open_request_is_clear_feature", z3.Implies(cf == 1, p_is_cf))
+        c.inv("zlp_only_for_open_halt_request", z3.Implies(zs == 1, z3.And(cf == 1, p_names_halt)))
         # whatever register the implementation uses to remember "the status ZLP has been sent" must equal zs: proposed by
         # template for every 1-bit register of the handler and kept only if inductive (Houdini)
         for k, var in ts.state.items():
             if k[0] == 'ff' and var.size() == 1 and '.' not in str(var):
                 c.candidate(f"{var}_is_zlp_sent_flag", var == zs)
+                c.candidate(f"{var}_is_zlp_sent_flag_unless_frozen", z3.Implies(p_std, var == zs))
                 c.candidate(f"{var}_is_zlp_sent_flag_in_state", z3.Implies(fsm.is_("CLEAR_FEATURE"), var == zs))
 
         # ---- ensures
@@ -207,7 +226,7 @@ def make_req(avoid_blockram):
                  clause="... of exactly the endpoint number and direction it names (wIndex[3:0], wIndex[7])")
         c.ensure("completed_request_named_endpoint_halt", z3.Implies(complete, z3.And(is_cf, names_halt)),
                  clause="only CLEAR_FEATURE requests with recipient ENDPOINT and feature ENDPOINT_HALT complete with a reset")
-        c.ensure("status_stage_answer", z3.Implies(z3.And(cf == 1, status),
+        c.ensure("status_stage_answer", z3.Implies(z3.And(cf == 1, status, z3.Not(received)),
                                                    z3.If(names_halt, z3.And(O["o_tx_valid"] == 1, O["o_tx_last"] == 1, O["o_tx_first"] == 0, O["o_stall"] == 0),
                                                          z3.And(O["o_stall"] == 1, O["o_tx_valid"] == 0))),
                  clause="the status stage of CLEAR_FEATURE(ENDPOINT_HALT) is answered with a ZLP, any other CLEAR_FEATURE is STALLed")
